@@ -337,6 +337,9 @@ def check(pid, tier, seed):
     if bad:
         problems.append(dict(kind="forbidden-vernacular", what=bad[:20]))
     pv = "theories/Props/%s.vo" % pid
+    # the models are rebuilt too (extraction needs a consistent set of .vo files)
+    model_vos = [os.path.relpath(v, COQ)[:-2] + ".vo" for v in sorted(glob.glob(os.path.join(COQ, "theories", "Model", "*.v")))]
+    okmm, outmm, _ = coq_make(model_vos, timeout=3000)
     okm, outm, dtm = coq_make([pv], timeout=3000)
     log("coq make %s: %s in %.1fs" % (pv, "ok" if okm else "FAILED", dtm))
     obligations = discharged = 0
